@@ -2,7 +2,7 @@
 # For every "fixed" entry of known_findings.json: revert that fix in a scratch worktree and
 # run the property's quick check there; the check must report the violation again (exit 1).
 # usage: fixed_regress.sh [property ...]
-wt=/tmp/wt-seedtry
+wt=${SEED_WT:-/tmp/wt-seedtry}
 if [ ! -d $wt ]; then git -C /repo worktree add --detach $wt HEAD >/dev/null 2>&1 || exit 2; fi
 python3 - "$@" <<'PY' > /tmp/fixed_list.txt
 import json,sys
